@@ -292,3 +292,38 @@ pub fn cut_images(n: usize, phase: usize) -> Vec<(usize, usize, usize)> {
     }
     v
 }
+
+/// pixel positions logged from a LARGE image (the conversion runs on all of it; only these are handed to TLC):
+/// both ends, the neighbourhoods of every power-of-two chunk boundary, row ends, and seeded random positions
+pub fn probe_indices(n: usize, w: usize, rng: &mut Rng) -> Vec<usize> {
+    let mut s = std::collections::BTreeSet::new();
+    for k in 0..4.min(n) {
+        s.insert(k);
+        s.insert(n - 1 - k);
+    }
+    let mut b = 4usize;
+    while b < n {
+        for m in [b, b * 3] {
+            for d in [-1i64, 0, 1] {
+                let i = m as i64 + d;
+                if i >= 0 && (i as usize) < n {
+                    s.insert(i as usize);
+                }
+            }
+        }
+        b *= 2;
+    }
+    for r in [1usize, 2, w / 2] {
+        for d in [-1i64, 0] {
+            let i = (r * w) as i64 + d;
+            if i >= 0 && (i as usize) < n {
+                s.insert(i as usize);
+            }
+        }
+    }
+    for _ in 0..120 {
+        s.insert(rng.below(n as u64) as usize);
+    }
+    s.into_iter().collect()
+}
+pub const BIG: (usize, usize) = (311, 227);
